@@ -56,7 +56,12 @@ def trace_function(fn, kwargs: dict, *, allow_constants=False):
         for arg in args:
             dag.setdefault(id(arg), (arg, None, None))
         dag[id(result)] = result, op, args
-    anf = list(reversed(dag.values()))  # forward
+    # Leaves first, then operations in the order they were executed (a valid
+    # topological order; the order of discovery from the root is not one).
+    anf = [node for node in dag.values() if node[1] is None]
+    for result, op, args in trace.values():  # forward
+        if id(result) in dag and dag[id(result)][1] is not None:
+            anf.append(dag[id(result)])
 
     # Collect constants (leaves).
     ids = {}
